@@ -1,3 +1,187 @@
 import CoupeModel.Model.Rcb
+import CoupeModel.Proofs.Rcb
 
-/-! # C03 — (theorems being written; placeholder so that `./check C03` runs) -/
+/-!
+# C03 — Rcb/Rib parts are leaves of a recursive axis-aligned bisection
+
+Property theorems only (lemmas in `Proofs/Rcb.lean`).  The model is generic in the
+coordinate type; the order facts the proofs use are the hypothesis `OrderLawsOn S`
+(strict weak order on a set `S` of values, `<=` the complement of the converse) together
+with "every input coordinate is in `S`".  For `α = Int`, `S` = everything
+(`intOrderLaws`); for `f32`, `S` = the non-NaN values and the laws are IEEE-754 (trusted,
+Lean's floats are opaque to the kernel).  Only INPUT coordinates are ever compared by the
+code paths these theorems cover (`reorder_split_scalar` compares items with the pivot
+item), so no law about rounding or arithmetic is needed: the theorems hold for every
+pivot the cut search may pick, for every `withinTol`, every bounding box, every fuel.
+-/
+
+namespace Coupe.Rcb
+
+variable {α : Type} [Coord α]
+
+/-- The integers satisfy the order laws everywhere. -/
+theorem intOrderLaws : OrderLawsOn (α := Int) (fun _ => True) where
+  le_iff := by intro a b _ _; simp only [Coord.le, Coord.lt]; by_cases h : a ≤ b <;> simp [h] <;> omega
+  irrefl := by intro a _; simp [Coord.lt]
+  neg_trans := by
+    intro a b c _ _ _ h1 h2
+    simp only [Coord.lt, decide_eq_true_eq, decide_eq_false_iff_not] at *
+    omega
+
+/-- `reorder_split_scalar`, for an in-range pivot: no index leaves the arrays (the unchecked
+reads included), the loop terminates within its fuel, the result is a permutation of the
+items, everything left of the split is `<` the pivot value, nothing right of it is, and
+the pivot itself is on the right. -/
+theorem reorderSplit_spec {S : α → Prop} (laws : OrderLawsOn S) (items : List (Item α))
+    (pivot coord : Nat) (p : Item α) (hS : ∀ x ∈ items, S (x.key coord))
+    (hp : items[pivot]? = some p) :
+    ∃ l r, reorderSplit items pivot coord = .ok (l, r) ∧ (l ++ r).Perm items ∧
+      (∀ x ∈ l, Coord.lt (x.key coord) (p.key coord) = true) ∧
+      (∀ x ∈ r, Coord.lt (x.key coord) (p.key coord) = false) ∧ p ∈ r := by
+  have hpm : p ∈ items := List.mem_iff_getElem?.2 ⟨pivot, hp⟩
+  exact reorderSplit_spec_aux items pivot coord p hp
+    (fun x hx => laws.le_iff _ _ (hS p hpm) (hS x hx)) (laws.irrefl _ (hS p hpm))
+
+/-- An out-of-range pivot is the bounds-check panic of `swap(0, pivot)`. -/
+theorem reorderSplit_bad_pivot (items : List (Item α)) (pivot coord : Nat)
+    (h : items.length ≤ pivot) : reorderSplit items pivot coord = .oob := by
+  have : swapAt items.toArray 0 pivot = none := by
+    unfold swapAt
+    have : ¬ (0 < items.toArray.size ∧ pivot < items.toArray.size) := by
+      simp only [List.size_toArray]; omega
+    rw [dif_neg this]
+  unfold reorderSplit
+  rw [this]
+
+/-- **C03 for Rcb.**  Whenever `rcb` returns ids (any bounding box, any tolerance test, any
+fuel), there is a binary tree `t` such that
+* `t` is a recursive bisection of the points: depth ≤ `iter`, axes cyclic from 0, every
+  internal node strictly separates its low side from its high side on its axis
+  (`IsBisection`, on the `α` = `f32` coordinates);
+* the leaves partition the index set `0 … n-1`;
+* leaf numbers increase strictly from low to high, so distinct leaves are distinct parts;
+* `ids[i]` is the number of the leaf holding `i`, minus a common offset;
+* `ids` has the input's length and every id is `< 2^iter`. -/
+theorem rcb_is_bisection {S : α → Prop} (laws : OrderLawsOn S) (wt : Int → Int → Bool) (cfg : Cfg)
+    (iter : Nat) (pts : List (List α)) (ws : List Int) (plen : Nat) (blo bhi : List α) (ids : List Nat)
+    (hS : ∀ p ∈ pts, ∀ c, S (p.getD c Coord.zero))
+    (h : runBB wt cfg iter pts ws plen blo bhi = .ok ids) :
+    ∃ t : Tree (NodeInfo α),
+      IsBisection (ptKey pts) cfg.dim iter 0 0 t ∧
+      t.members.Perm (List.range pts.length) ∧
+      (t.leaves.map (·.1)).Pairwise (· < ·) ∧
+      (∃ off, ∀ pl ∈ t.leaves, ∀ i ∈ pl.2, off ≤ pl.1 ∧ ids[i]? = some (pl.1 - off)) ∧
+      ids.length = pts.length ∧ ∀ v ∈ ids, v < 2 ^ iter := by
+  obtain ⟨t, h1, h2, h3, h4, h5⟩ := runBB_bisection laws wt cfg iter pts ws plen blo bhi ids hS h
+  exact ⟨t, h1, h2, leaves_increasing _ _ t _ _ _ h1, h3, h4, h5⟩
+
+/-- Two points that no axis orders strictly (in particular two points with identical
+coordinates, or differing only in the sign of a zero) receive the same part. -/
+theorem rcb_unseparated_same_part {S : α → Prop} (laws : OrderLawsOn S) (wt : Int → Int → Bool)
+    (cfg : Cfg) (iter : Nat) (pts : List (List α)) (ws : List Int) (plen : Nat) (blo bhi : List α)
+    (ids : List Nat) (hS : ∀ p ∈ pts, ∀ c, S (p.getD c Coord.zero))
+    (h : runBB wt cfg iter pts ws plen blo bhi = .ok ids)
+    (i j : Nat) (hi : i < pts.length) (hj : j < pts.length)
+    (hij : ∀ c, Coord.lt (ptKey pts i c) (ptKey pts j c) = false ∧
+                Coord.lt (ptKey pts j c) (ptKey pts i c) = false) :
+    ids[i]? = ids[j]? := by
+  obtain ⟨t, hb, hperm, ⟨off, hoff⟩, _, _⟩ :=
+    runBB_bisection laws wt cfg iter pts ws plen blo bhi ids hS h
+  have him : i ∈ t.members := hperm.mem_iff.2 (by simpa using hi)
+  have hjm : j ∈ t.members := hperm.mem_iff.2 (by simpa using hj)
+  obtain ⟨pl, hpl, h1, h2⟩ := same_leaf (ptKey pts) cfg.dim i j hij t _ _ _ hb him hjm
+  rw [(hoff pl hpl i h1).2, (hoff pl hpl j h2).2]
+
+/-- Points with identical coordinates share a part. -/
+theorem rcb_same_point_same_part {S : α → Prop} (laws : OrderLawsOn S) (wt : Int → Int → Bool)
+    (cfg : Cfg) (iter : Nat) (pts : List (List α)) (ws : List Int) (plen : Nat) (blo bhi : List α)
+    (ids : List Nat) (hS : ∀ p ∈ pts, ∀ c, S (p.getD c Coord.zero))
+    (h : runBB wt cfg iter pts ws plen blo bhi = .ok ids)
+    (i j : Nat) (hi : i < pts.length) (hj : j < pts.length) (heq : pts[i]? = pts[j]?) :
+    ids[i]? = ids[j]? := by
+  refine rcb_unseparated_same_part laws wt cfg iter pts ws plen blo bhi ids hS h i j hi hj ?_
+  intro c
+  have hk : ptKey pts i c = ptKey pts j c := by
+    simp [ptKey, List.getD_eq_getElem?_getD, heq]
+  have hSi : S (ptKey pts i c) := by
+    have : pts[i]? = some pts[i] := by simp [hi]
+    simp only [ptKey, List.getD_eq_getElem?_getD, this, Option.getD_some]
+    rw [← List.getD_eq_getElem?_getD]
+    exact hS _ (List.getElem_mem hi) c
+  rw [← hk]
+  exact ⟨laws.irrefl _ hSi, laws.irrefl _ hSi⟩
+
+/-- **C03 for Rib**: the same, in the frame `rotate` maps the points to – for EVERY function
+`rotate` (the inertia-axis computation is numerical code outside the model; the driver
+feeds the frame exported by the implementation). -/
+theorem rib_is_bisection {β : Type} {S : α → Prop} (laws : OrderLawsOn S) (rotate : β → List α)
+    (wt : Int → Int → Bool) (cfg : Cfg) (iter : Nat) (pts : List β) (ws : List Int) (plen : Nat)
+    (ids : List Nat) (hS : ∀ p ∈ pts, ∀ c, S ((rotate p).getD c Coord.zero))
+    (h : runRib rotate wt cfg iter pts ws plen = .ok ids) :
+    ∃ t : Tree (NodeInfo α),
+      IsBisection (ptKey (pts.map rotate)) cfg.dim iter 0 0 t ∧
+      t.members.Perm (List.range pts.length) ∧
+      (t.leaves.map (·.1)).Pairwise (· < ·) ∧
+      (∃ off, ∀ pl ∈ t.leaves, ∀ i ∈ pl.2, off ≤ pl.1 ∧ ids[i]? = some (pl.1 - off)) ∧
+      ids.length = pts.length ∧ ∀ v ∈ ids, v < 2 ^ iter := by
+  have := rcb_is_bisection laws wt cfg iter (pts.map rotate) ws plen _ _ ids
+    (by
+      intro p hp c
+      obtain ⟨q, hq, rfl⟩ := List.mem_map.1 hp
+      exact hS q hq c) h
+  simpa using this
+
+/-- No out-of-range access anywhere in `rcb` (checked or unchecked): the model's only
+other failure is a cut search that exceeds its fuel (see `split_terminates_int`). -/
+theorem rcb_no_out_of_bounds {S : α → Prop} (laws : OrderLawsOn S) (wt : Int → Int → Bool)
+    (cfg : Cfg) (iter : Nat) (pts : List (List α)) (ws : List Int) (plen : Nat) (blo bhi : List α)
+    (hS : ∀ p ∈ pts, ∀ c, S (p.getD c Coord.zero)) :
+    runBB wt cfg iter pts ws plen blo bhi ≠ .oob := by
+  intro h
+  unfold runBB at h
+  split at h
+  · cases h
+  split at h
+  · cases h
+  split at h
+  · cases h
+  split at h
+  · next ht =>
+    refine recurse_no_oob laws wt cfg iter _ _ _ _ _ _ ?_ ht
+    intro x hx c
+    have h1 := mkItems_key pts ws x hx
+    exact hS x.c (List.mem_iff_getElem?.2 ⟨_, h1⟩) c
+  · cases h
+  · cases h
+
+/-- A length mismatch is reported, nothing else happens. -/
+theorem rcb_len_mismatch (wt : Int → Int → Bool) (cfg : Cfg) (iter : Nat) (pts : List (List α))
+    (ws : List Int) (plen : Nat) (blo bhi : List α) (h : ws.length ≠ plen ∨ pts.length ≠ plen) :
+    runBB wt cfg iter pts ws plen blo bhi = .lenMismatch := by
+  unfold runBB
+  rcases h with h | h
+  · simp [h]
+  · by_cases h' : ws.length = plen <;> simp [h, h']
+
+/-! Non-vacuity: `test_rcb_basic` scaled to integers (x10), two levels; the K1(b) outlier
+input; all points identical. -/
+example : run (α := Int) (fun _ _ => false) ⟨2, 100⟩ 2
+    [[-13, 60], [20, -40], [10, 10], [-30, -25], [-13, -3], [20, 10], [-30, 10], [13, -20]]
+    [1, 1, 1, 1, 1, 1, 1, 1] 8 = .ok [1, 2, 3, 0, 1, 3, 1, 2] := by decide +kernel
+example : run (α := Int) (fun _ _ => false) ⟨2, 100⟩ 1
+    [[0, 0], [1, 0], [2, 0], [3, 0], [100, 0]] [1, 1, 1, 1, 1] 5 = .ok [0, 0, 0, 0, 1] := by
+  decide +kernel
+example : run (α := Int) (fun _ _ => false) ⟨2, 100⟩ 3
+    [[1, 1], [1, 1], [1, 1]] [1, 1, 1] 3 = .ok [0, 0, 0] := by decide +kernel
+
+end Coupe.Rcb
+
+#print axioms Coupe.Rcb.intOrderLaws
+#print axioms Coupe.Rcb.reorderSplit_spec
+#print axioms Coupe.Rcb.reorderSplit_bad_pivot
+#print axioms Coupe.Rcb.rcb_is_bisection
+#print axioms Coupe.Rcb.rcb_unseparated_same_part
+#print axioms Coupe.Rcb.rcb_same_point_same_part
+#print axioms Coupe.Rcb.rib_is_bisection
+#print axioms Coupe.Rcb.rcb_no_out_of_bounds
+#print axioms Coupe.Rcb.rcb_len_mismatch
